@@ -286,7 +286,10 @@ def project(out, cs, merge, force):
     if body is not None:
         for el in body.iter():
             if el.get("style") is not None:
-                rec["srefs"].append(el.get("style"))
+                # style is a list of ids; an id that itself contains blanks (class names are arbitrary
+                # strings here) can only be meant as a whole
+                v = el.get("style")
+                rec["srefs"] += [v] if (v in rec["styles"] or not v.split()) else v.split()
             if el.get("region") is not None:
                 rec["rrefs"].append(el.get("region"))
         for div in body.findall(scan.TT + "div"):
